@@ -6,8 +6,10 @@ import GoomVerif.Model.Mem
 * `c14.write <off> <hexdata> <perms>`           → `res=… calls=… win=<start>:<hex> perms=…`
     a scratch region of `len perms` pages at a page-aligned base; `perms` is a comma list, one letter per page:
     `x`=r-x `w`=rwx `r`=r-- `d`=rw- `u`=unmapped; byte `i` of the region initially holds `pat i`.
-* `c14.gen <funcSize>`                          → `ok len=13` | `err:<class>`               (jumpdata.go size test)
-* `c14.install <entryOff> <funcSize> <orig13>`  → install without placeholder on an r-x image, then unpatch
+* `c14.gen <funcSize> …`                        → `ok len=13` | `err:<class>`               (jumpdata.go size test)
+* `c14.install <entryOff> <funcSize> <orig13> …` → install without placeholder on an r-x image, then unpatch
+  (further `key=value` tokens name the real function for the probe and are ignored here)
+* `c14.survey`, `c14.tramp …`                   → `oracle-only` (no model observation; the check applies the property oracle)
 -/
 namespace Drv.C14
 open Mem
@@ -128,14 +130,16 @@ def handle (toks : List String) : Option String :=
     match parseNat off, parseBytes hx, parsePerms perms with
     | some o, some d, some ps => some (doWrite o d ps)
     | _, _, _ => some "bad-op"
-  | ["c14.gen", fs] =>
+  | "c14.survey" :: _ => some "oracle-only"
+  | "c14.tramp" :: _ => some "oracle-only"
+  | "c14.gen" :: fs :: _ =>
     match parseNat fs with
     | some n =>
       match genJumpData base (base + 0x1000#64) n with
       | .ok jd => some s!"ok len={jd.length}"
       | .error e => some s!"err:{e}"
     | none => some "bad-op"
-  | ["c14.install", eo, fs, orig] =>
+  | "c14.install" :: eo :: fs :: orig :: _ =>
     match parseNat eo, parseNat fs, parseBytes orig with
     | some e, some f, some ob => some (doInstall e f ob)
     | _, _, _ => some "bad-op"
